@@ -384,6 +384,7 @@ package encode
 //@   ensures [C10.step.Bytes] (proto.afterNeutral S0 S1)
 //@   ensures [C10.bytes.err] (= result.1 (old e.err))
 //@   ensures [C10.bytes.result C17.bytes.result] (=> (= (old e.err) nil.Iface) (= result.0 e.buf))
+//@   ensures [C17.bytes.idem] (=> (not (= (old e.mode) #x00)) (and (= e.buf (old e.buf)) (= mem.u8 (old mem.u8)) (= e.mode (old e.mode))))
 
 //@ contract (*Encoder).Reset
 //@   note counts C02
